@@ -48,14 +48,7 @@ class SQLBench:
                 continue
             if not self.in_model:
                 continue
-            k = e["kind"]
-            if out == "raises":
-                pre = "anyraise"
-            elif (10000 <= k < 20000 or 30000 <= k < 40000) and gone:
-                pre = {"victim": sorted(gone)[0]}
-            else:
-                pre = "none"
-            m = drv.call({"op": "sql.add", "ev": me, "pre": pre})
+            m = drv.call({"op": "sql.add", "ev": me})
             if m != out:
                 self.report.correspondence_break("db.DBStorage.add_event", {"events": self.events}, [out, reason], m)
                 self.in_model = False
